@@ -99,6 +99,8 @@ fn campaign(args: &[String]) -> i32 {
     let mut dump_f = arg(args, "--dump-obs").map(|p| std::fs::File::create(p).unwrap());
     let mut prog_f = progress.as_ref().map(|p| std::fs::OpenOptions::new().create(true).append(true).open(p).unwrap());
     let ro = RunOpts::default();
+    let mut cand_f = arg(args, "--candidates-file").map(|p| std::fs::OpenOptions::new().create(true).append(true).open(p).unwrap());
+    let mut n_cand = 0;
     for run0 in from..to {
         let run = run0 + offset;
         if t0.elapsed().as_secs_f64() > budget_s {
@@ -161,6 +163,25 @@ fn campaign(args: &[String]) -> i32 {
             }
         } else if let Some(v) = r.violations.first() {
             *res.other_violations.entry(format!("{}:{}", v.props.join("+"), v.class)).or_default() += 1;
+            // C06 differential: the driver re-runs these on the build without apply cache
+            if let (Some(f), true) = (cand_f.as_mut(), n_cand < 4) {
+                n_cand += 1;
+                let rp = Replay {
+                    engine: "E1".into(),
+                    check: v.props.first().cloned().unwrap_or_default(),
+                    seed,
+                    run,
+                    batch: b.name.into(),
+                    features: features(),
+                    program: p.clone(),
+                    violation: v.clone(),
+                    retry_need: None,
+                };
+                let mut line = serde_json::to_string(&rp).unwrap();
+                line.push('\n');
+                let _ = f.write_all(line.as_bytes());
+                let _ = f.flush();
+            }
         }
     }
     if let Some(f) = prog_f.as_mut() {
@@ -190,6 +211,17 @@ fn load(path: &str) -> Replay {
 }
 
 fn same_failure(want: &Violation, check: &str, vs: &[Violation]) -> Option<Violation> {
+    // C06 differential finding: the same failure of whatever property, which the driver has
+    // seen disappear on the build without apply cache
+    if let Some(cls) = want.class.strip_prefix("cache-dependent:") {
+        return vs.iter().find(|v| v.class == cls).cloned().map(|mut v| {
+            v.class = want.class.clone();
+            if !v.props.iter().any(|p| p == "C06") {
+                v.props.push("C06".into());
+            }
+            v
+        });
+    }
     vs.iter().find(|v| v.class == want.class && v.props.iter().any(|p| p == check)).cloned()
 }
 
